@@ -355,6 +355,13 @@ class World:
                         script['calls'].append(['getState', h])
                         if r.random() < 0.8:
                             script['calls'].append(['setStateBody', h, r.randrange(1000)])
+            elif z < 0.34 and leafish:
+                # remove a descriptor that has several states (context descriptor with >= 2 context states), or its parent
+                multi = [d for d in leafish if len(self.mdib.context_states.descriptor_handle.get(d, [])) >= 2]
+                if multi:
+                    script['calls'].append(['removeDescr', self.pick(multi)])
+                else:
+                    script['calls'].append(['removeDescr', self.pick(leafish)])
             elif z < 0.5 and leafish:
                 # remove: mostly leaves (metrics / alert conditions / operations), sometimes an inner node
                 leaves = [h for h in leafish if not self.mdib.descriptions.parent_handle.get(h)]
